@@ -328,7 +328,9 @@ Eval(e, vs) ==
 \* ---- statements ---------------------------------------------------------------------------------------------------
 \* execution state: variables, the messages printed so far, and how execution went on
 \*   sig "next" | "err";  code 1 failure demanded, 3 unspecified from here on;  em the error_message to be reported
-R(vs, out, sig, code, em) == [vs |-> vs, out |-> out, sig |-> sig, code |-> code, em |-> em]
+\*   at the innermost statement at which execution stopped (for reports)
+NoNode == N("none", "", 0, <<>>, <<>>)
+R(vs, out, sig, code, em) == [vs |-> vs, out |-> out, sig |-> sig, code |-> code, em |-> em, at |-> NoNode]
 NormCode(n) == IF n = 1 THEN 1 ELSE 3                     \* Core's strict bool-as-int failures (reason 2) are judged by C01, not here
 Fail(r, v) == R(r.vs, r.out, "err", NormCode(v.n), v.s)
 Bind(r, x, v) == R(Put(r.vs, x, v), r.out, "next", 0, <<>>)
@@ -399,7 +401,9 @@ ExecMeth(x, r) ==
 RECURSIVE Exec(_, _), ExecSeq(_, _, _), ExecIf(_, _, _), ExecLoop(_, _, _, _)
 ExecSeq(ss, i, r) ==
     IF i > Len(ss) THEN r
-    ELSE LET r1 == Exec(ss[i], r) IN IF r1.sig # "next" THEN r1 ELSE ExecSeq(ss, i + 1, r1)
+    ELSE LET r1 == Exec(ss[i], r) IN
+         IF r1.sig # "next" THEN (IF r1.at.k = "none" THEN [r1 EXCEPT !.at = ss[i]] ELSE r1)
+         ELSE ExecSeq(ss, i + 1, r1)
 ExecIf(e, j, r) ==
     IF 2 * j > Len(e.a) - e.n THEN (IF e.n = 1 THEN ExecSeq(e.a[Len(e.a)].a, 1, r) ELSE r)
     ELSE LET c == Eval(e.a[2 * j - 1], r.vs) IN
@@ -451,5 +455,9 @@ nFA == <<102, 97>>
 nFS == <<102, 115>>
 Vars0(af) == << <<nFE, VFeat(EN, nFE)>>, <<nFD, VFeat(DIS, nFD)>>, <<nFA, VFeat(Effective(AUTO, af), nFA)>>, <<nFS, VMod(nFS)>> >>
 Run(prog, af) == ExecSeq(prog, 1, R(Vars0(af), <<>>, "next", 0, <<>>))
+
+\* what each variable holds, by kind (for reports only)
+KindOf(v) == IF v.k = "cfg" /\ v.n = 1 THEN "cfg-used" ELSE v.k
+Kinds(vs) == [i \in 1..Len(vs) |-> <<vs[i][1], KindOf(vs[i][2])>>]
 
 =============================================================================
